@@ -978,3 +978,71 @@ func (t *Term) str(d int) string {
 	}
 	return fmt.Sprintf("(%s %s %s)", opNames[t.Op], t.A.str(d-1), t.B.str(d-1))
 }
+
+// WriteStandalone renders a self-contained SMT-LIB2 script asserting all of asserts (no reliance on
+// what a live solver has already been told): used for one-shot queries to a second solver.
+func (s *Store) WriteStandalone(sb *strings.Builder, asserts []*Term, vars []*Term) {
+	seen := map[*Term]bool{}
+	tseen := map[int]bool{}
+	var visit func(t *Term)
+	visit = func(root *Term) {
+		type fr struct {
+			t *Term
+			k int
+		}
+		stack := []fr{{root, 0}}
+		for len(stack) > 0 {
+			f := &stack[len(stack)-1]
+			x := f.t
+			if seen[x] {
+				stack = stack[:len(stack)-1]
+				continue
+			}
+			var child *Term
+			for f.k < 3 {
+				switch f.k {
+				case 0:
+					child = x.A
+				case 1:
+					child = x.B
+				case 2:
+					child = x.C
+				}
+				f.k++
+				if child != nil && !seen[child] {
+					break
+				}
+				child = nil
+			}
+			if child != nil {
+				stack = append(stack, fr{child, 0})
+				continue
+			}
+			if x.Op == OpSelect {
+				tb := s.Tables[x.Val]
+				if !tseen[tb.ID] {
+					tseen[tb.ID] = true
+					fmt.Fprintf(sb, "(declare-const T%d (Array (_ BitVec %d) (_ BitVec %d)))\n", tb.ID, tb.IW, tb.W)
+					for i, v := range tb.Vals {
+						fmt.Fprintf(sb, "(assert (= (select T%d %s) %s))\n", tb.ID, constStr(tb.IW, uint64(i)), constStr(tb.W, v))
+					}
+				}
+				fmt.Fprintf(sb, "(define-fun t%d () %s (select T%d %s))\n", x.ID, sortOf(x.W), tb.ID, x.A.Ref())
+			} else {
+				// emit() writes table text to the preamble only for undefined tables; selects were handled above
+				s.emit(sb, x)
+			}
+			seen[x] = true
+			stack = stack[:len(stack)-1]
+		}
+	}
+	for _, v := range vars {
+		visit(v)
+	}
+	for _, a := range asserts {
+		visit(a)
+	}
+	for _, a := range asserts {
+		fmt.Fprintf(sb, "(assert %s)\n", a.Ref())
+	}
+}
